@@ -44,14 +44,6 @@ for k in range(39):
                        tier="quick" if k in QUICK_HIST else "thorough", **HB))
 # schedules B / C (an EMPTY value in the first / second operation, harness/C03/headers.rs) are written but NOT registered: the histories where an
 # append follows an empty value end in "CBMC out of memory" (measured: b_k04, c_k13), so "append to an empty value" is outside the enumerated states.
-# schedules B / C: an EMPTY (owned or borrowed) value in the first / second operation, so that "append to an empty value" and "re-set after an empty value" are enumerated
-QUICK_BC = {("b", 4), ("c", 13), ("b", 1), ("c", 10)}
-for sched, lens in (("b", "value lengths 1,0,2,1 (owned, owned, borrowed, borrowed)"), ("c", "value lengths 1,2,0,1 (borrowed, borrowed, owned, owned)")):
-    for k in range(39):
-        HARNESSES.append(H(f"c03_hdr_std_history_{sched}_k{k:02d}", functions=[HF + "insert", HF + "append", HF + "remove", HF + "get_standard", HF + "write_unchecked_to", HF + "_write_to", "push_unchecked!"],
-                           clauses=["after every operation size == 2 + sum(name+2+value+2) over the view", "view: set = latest, append = `old, new`, remove = absent; other header untouched",
-                                    "serializer writes exactly `size` bytes, all inside the reserved allocation", "wire image has every live header exactly once with its latest value"],
-                           tier="quick" if (sched, k) in QUICK_BC else "thorough", **dict(HB, bound="operation histories of length <= 3 on one standard key with an EMPTY value among the operands: " + lens)))
 RB = dict(crate="ohkami", strength="bounded", timeout=900, unwindset=UW, tier="quick")
 HARNESSES += [
     H("c03_complete_204_contract", functions=["response::Response::complete"], clauses=["status 204 => no Content-Length, Content::None, size updated; for every prior (Content-Length present?, body present?)"],
